@@ -354,6 +354,14 @@ def _check_ctor_reject(scn, w, e):
 
 
 def _check_ctor_accept(scn, w, b):
+    if w.violation_fn is not None:
+        # whatever the starting point is (supplied, moved inside the bounds, or drawn at random because it
+        # was omitted): an accepted instance must not start from an infeasible point
+        x0b = np.asarray(b.x0, dtype=float).reshape(-1)
+        if np.all(np.isfinite(x0b)) and w.violation_fn(x0b) > 0:
+            w.violate("C02", "infeasible-x0-accepted",
+                      "constructor accepted a starting point that violates the non-box constraint",
+                      x0=x0b, supplied=scn.get("x0") is not None, viol=w.violation_fn(x0b))
     x0 = scn.get("x0")
     if w.violation_fn is not None and x0 is not None and scn.get("x0_class") == "infeasible":
         w.violate("C02", "infeasible-x0-accepted",
